@@ -4,7 +4,7 @@ from common import *
 import sqlparse
 
 RULE = ('scripts pre; CREATE [OR REPLACE] PROCEDURE/FUNCTION/TRIGGER … BEGIN <block grammar> END; post with random layout/casing/comments; '
-        'non-trivial = distinct script whose block contains at least one nested construct (IF/BEGIN/WHILE/LOOP/CASE/DECLARE)')
+        'second pass: 37 condition forms directly after IF/WHILE/ELSIF/CASE WHEN, 43 names/literals containing block keywords, every str.isspace() character inside END IF / END WHILE / CREATE OR REPLACE, comments inside END IF; non-trivial = distinct script whose block contains at least one nested construct (IF/BEGIN/WHILE/LOOP/CASE/DECLARE)')
 ASSUMPTIONS = ['lexical bridge: rendered keywords lex to the keyword kinds the block theorem quantifies over (domain check through the driver on every script)',
                'model of StatementSplitter tied by S-SPLIT (sampled) and S-CSL (exhaustive)']
 PARTIAL = ['FOR/WHILE … LOOP … END LOOP and CASE … END CASE statements are outside the proved grammar (known findings KF-C17-1..3)',
@@ -147,11 +147,144 @@ def block_keyword_before_paren(text):
     return False
 
 
+# --- second pass ---------------------------------------------------------------------------------------------------------------------------
+PROPOSED = {
+    # id -> (predicate on the text, summary); failures that match are counted as pending until the id is registered in known_findings.json
+}
+
+
+def _toks(text):
+    from sqlparse import lexer
+    return list(lexer.tokenize(text))
+
+
+def block_keyword_before_dot(text):
+    """proposed KF-C17-6: a Name token spelled IF / WHILE / FOR followed (after optional whitespace) by a token that starts with `.` —
+    the name-before-dot rule `[A-ZÀ-Ü]\\w*(?=\\s*\\.)` takes the keyword (IF .5 > a THEN …)"""
+    from sqlparse import tokens as T
+    toks = [(tt, v) for tt, v in _toks(text) if tt not in T.Whitespace]
+    return any(tt is T.Name and v.upper() in ('IF', 'WHILE', 'FOR') and nv.startswith('.') for (tt, v), (nt, nv) in zip(toks, toks[1:]))
+
+
+def comment_inside_closer(text):
+    """proposed KF-C17-7: a comment between END and IF / WHILE / LOOP: END and IF are then two keywords, END closes and IF opens"""
+    from sqlparse import tokens as T
+    toks = _toks(text)
+    for i, (tt, v) in enumerate(toks):
+        if tt in T.Keyword and v.upper() == 'END':
+            j, seen = i + 1, False
+            while j < len(toks) and (toks[j][0] in T.Whitespace or toks[j][0] in T.Comment):
+                seen = seen or toks[j][0] in T.Comment
+                j += 1
+            if seen and j < len(toks) and toks[j][0] in T.Keyword and toks[j][1].upper() in ('IF', 'WHILE', 'LOOP', 'FOR'):
+                return True
+    return False
+
+
+def keyword_prefix_of_identifier(text):
+    """proposed KF-C17-8: a keyword token directly followed by `$` or `#`: an identifier such as end$x / begin#1 (legal for the word rule
+    `\\w[$#\\w]*`) is cut at the word boundary by an earlier keyword rule (END…\\b, CREATE…\\b, (CASE|IN|…)\\b)"""
+    from sqlparse import tokens as T
+    toks = _toks(text)
+    return any(tt in T.Keyword and nv[:1] in '$#' for (tt, v), (nt, nv) in zip(toks, toks[1:])) or \
+        any(nt in T.Keyword and tt in T.Operator and v[-1:] in '@#' for (tt, v), (nt, nv) in zip(toks, toks[1:]))      # @@begin: `@@` is an operator, begin a keyword
+
+
+def case_after_dot(text):
+    """proposed KF-C17-9: the keyword CASE directly after a `.` (a column named case: t.case) — the rule (CASE|IN|VALUES|USING|FROM|AS)\\b stands before
+    the name-after-dot rule, so inside a CREATE body it opens a level that nothing closes (t.end / t.begin / t.if are Names)"""
+    from sqlparse import tokens as T
+    toks = _toks(text)
+    return any(pt is T.Punctuation and pv == '.' and tt in T.Keyword and v.upper() == 'CASE' for (pt, pv), (tt, v) in zip(toks, toks[1:]))
+
+
+def keyword_after_spaced_dot(text):
+    """proposed KF-C17-10: `t . end` / `t. end` — the name-after-dot rule needs the dot DIRECTLY before the word (look-behind), with a blank after the dot the
+    column name end / begin / if … is a keyword again although keywords.py calls `schema . name` a valid identifier"""
+    from sqlparse import tokens as T
+    toks = _toks(text)
+    for i in range(2, len(toks)):
+        if toks[i][0] in T.Keyword and toks[i][1].upper() in BLOCK_SENSITIVE and toks[i - 1][0] in T.Whitespace:
+            j = i - 1
+            while j >= 0 and toks[j][0] in T.Whitespace:
+                j -= 1
+            if j >= 0 and toks[j][0] is T.Punctuation and toks[j][1] == '.':
+                return True
+    return False
+
+
+PROPOSED.update({'KF-C17-9': case_after_dot, 'KF-C17-10': keyword_after_spaced_dot, 'KF-C17-6': block_keyword_before_dot, 'KF-C17-7': comment_inside_closer, 'KF-C17-8': keyword_prefix_of_identifier})
+
+CONDITIONS = [':x > 1', ':new.a is null', '@x = 1', '?', '$1 > 0', '-1 < a', '+a > 0', '.5 > a', '"a" = 1', "'a' = b", '[a] = 1', '`a` = 1', '(a)', 'a', 'not a', 'exists (select 1)', 'a.b > 1',
+              'a . b > 1', '1 = 1', '1.5 > a', '%s', '*', '~a', '!a', 'x::int > 1', 'f(1)', '/* c */ a', '-- c\n a', '\n a', '\t(a)', '#t', '##t > 0', 'é > 1', '_a', '$$a$$ = b', 'x.y.z', 'x := 1']
+NAMES = ['end$x', 'end#x', 'begin$', 'if$x', 'case#1', 'create$t', '@end', '@@begin', '#end', '##if', ':end', ':begin', '$end', 't.end', 't.begin', 't.if', 't.case', 't.loop', 't . end', 't. end',
+         '"end"', '"begin"', '`end`', '`if`', '[end]', '[begin]', '´end´', 'end_if', 'begin_date', 'endif', 'xend', '_end', 'end1', 'é_end', 'iff', 'whilex', 'casex', 'enders',
+         'x.end$y', "'end'", "'begin; end'", '$$end;$$', '$b$ begin $b$']
+INNER_WS = None
+
+
+def inner_ws():
+    import sys
+    global INNER_WS
+    if INNER_WS is None:
+        one = [chr(c) for c in range(sys.maxunicode + 1) if chr(c).isspace()]
+        INNER_WS = one + ['  ', ' \t', '\r\n', '\n\n', ' \n ', '\xa0 ', '  ', '\t\t\t']
+    return INNER_WS
+
+
+def second_pass_sweeps(ctx):
+    from common import load_known_findings
+    registered = {k.get('id') for k in load_known_findings()}
+    pending = {}
+
+    def one(text, want, what):
+        ctx.evaluations += 1
+        try:
+            got = len(sqlparse.split(text))
+        except Exception as e:
+            got = 'raised ' + type(e).__name__
+        if got != want:
+            for kid, pred in PROPOSED.items():
+                if kid not in registered and pred(text):
+                    pending[kid] = pending.get(kid, 0) + 1      # proposed finding (seeded/redteam/C17/README.md): classified once it is registered
+                    return
+            ctx.fail('procedural body is not one statement (%s)' % what, text, observed=got, required=want)
+
+    frame = 'select 1; CREATE PROCEDURE p() BEGIN %s z := 0; END; select 2'
+    # (a) every condition form directly after IF / WHILE / ELSIF / CASE WHEN (a look-ahead rule that reads the keyword together with its successor)
+    for c in CONDITIONS:
+        ctx.count('second:condition')
+        one(frame % ('IF %s THEN x := 1; END IF;' % c), 3, 'condition after IF')
+        one(frame % ('WHILE %s DO x := 1; END WHILE;' % c), 3, 'condition after WHILE')
+        one(frame % ('IF a THEN x := 1; ELSIF %s THEN y := 2; END IF;' % c), 3, 'condition after ELSIF')
+        one(frame % ('x := CASE WHEN %s THEN 1 ELSE 2 END;' % c), 3, 'condition after CASE WHEN')
+        one(frame.lower() % ('if %s then begin x := 1; end; end if;' % c), 3, 'condition after if, nested begin')
+    # (b) identifiers and literals that contain a block keyword
+    for nm in NAMES:
+        ctx.count('second:name')
+        one(frame % ('IF a THEN SET %s = 1; END IF; UPDATE t SET a = %s;' % (nm, nm)), 3, 'block keyword inside a name')
+        one(frame % ('SELECT %s, 1 FROM t; BEGIN y := %s; END;' % (nm, nm)), 3, 'block keyword inside a name')
+    # (c) every whitespace character (and some runs) inside the multi-word keywords
+    for w in inner_ws():
+        ctx.count('second:inner_ws')
+        one(frame % ('IF a THEN x := 1; END%sIF; WHILE b DO y := 2; END%sWHILE; BEGIN IF c THEN v := 3; END%sIF; END;' % (w, w, w)), 3, 'whitespace inside END IF / END WHILE')
+        one('select 1; CREATE%sOR%sREPLACE PROCEDURE p() BEGIN x := 1; y := 2; END; select 2' % (w, w), 3, 'whitespace inside CREATE OR REPLACE')
+    # (d) comments inside the multi-word keywords
+    for cm in ['/* c */', ' /* c */ ', '/**/', ' -- c\n', '\n--\n', ' # c\n', ' /*+ h */ ']:
+        ctx.count('second:inner_comment')
+        one(frame % ('BEGIN IF a THEN x := 1; END%sIF; y := 2; END;' % cm), 3, 'comment inside END IF')
+        one(frame % ('BEGIN WHILE a DO x := 1; END%sWHILE; y := 2; END;' % cm), 3, 'comment inside END WHILE')
+    for kid, k in sorted(pending.items()):
+        ctx.dist['pending-known-finding:' + kid] = k
+        ctx.notes.append('%s (proposed, not registered in known_findings.json): %d witnesses' % (kid, k))
+
+
 def run(ctx):
     rng = ctx.rng
     keyword_sweep(ctx)
     adjacency_sweep(ctx)
     tight_paren_sweep(ctx)
+    second_pass_sweeps(ctx)
     g = grammar.Gen(rng, maxdepth=2, feat={'sqlfor': True})
     n = ctx.n(400, 10000)
     dom = []
@@ -206,6 +339,8 @@ def classify(f, kf):
         if k['id'] == 'KF-C17-4' and isinstance(f.get('input'), str) and for_outside_loop_header(f['input']):
             return k['id']
         if k['id'] == 'KF-C17-5' and isinstance(f.get('input'), str) and block_keyword_before_paren(f['input']):
+            return k['id']
+        if k['id'] in PROPOSED and isinstance(f.get('input'), str) and PROPOSED[k['id']](f['input']):
             return k['id']
     return None
 
